@@ -26,6 +26,7 @@ type Program struct {
 	allowUninitVars    map[string]bool
 	byName             map[string]*ssa.Function
 	stubs              map[string]*ssa.Function // real function name -> harness stub (ZZStub_<pkg>_<Func>)
+	InitValues         map[string]interface{}   // constant initial values of selected globals of packages whose init is not run
 }
 
 // NewProgram prepares prog (which must have been built with
@@ -113,7 +114,7 @@ func (i *interpreter) global(g *ssa.Global) *value {
 			call(i, nil, token.NoPos, initFn, nil)
 			i.run.steps, i.run.budget = savedSteps, savedBudget
 			i.inited[g.Pkg] = true
-		case i.allowUninit(g):
+		case i.allowUninit(g) || i.hasInitValue(g):
 		default:
 			panic(engineErrorf("access to global %s of package %s whose init is not executed (add the package to the init whitelist or the variable to the allow list)", g.Name(), g.Pkg.Pkg.Path()))
 		}
@@ -122,8 +123,18 @@ func (i *interpreter) global(g *ssa.Global) *value {
 		return r
 	}
 	cell := zero(mustDeref(g.Type()))
+	if g.Pkg != nil && !i.inited[g.Pkg] {
+		if v, ok := i.InitValues[g.Pkg.Pkg.Path()+"."+g.Name()]; ok {
+			cell = v
+		}
+	}
 	i.globals[g] = &cell
 	return &cell
+}
+
+func (p *Program) hasInitValue(g *ssa.Global) bool {
+	_, ok := p.InitValues[g.Pkg.Pkg.Path()+"."+g.Name()]
+	return ok
 }
 
 func (p *Program) allowUninit(g *ssa.Global) bool {
